@@ -500,10 +500,13 @@ func (r *runner) finalize(rc *rec) string {
 		// "Has parent\n" / "No parent\n", then "name = value" lines for values and "name = type" for types
 		st := state{map[string]int{}, map[string]int{}}
 		lines := strings.Split(strings.TrimSpace(rc.out.Str), "\n")
+		recognised := len(lines) > 0
 		for _, ln := range lines[1:] {
 			kv := strings.SplitN(ln, " = ", 2)
-			if len(kv) != 2 {
-				continue
+			if len(kv) != 2 || strings.ContainsAny(kv[0], " \t") {
+				// not the "name = value" shape: the text format is not specified, so do not judge this output
+				recognised = false
+				break
 			}
 			if n, err := strconv.Atoi(kv[1]); err == nil {
 				st.vals[kv[0]] = n
@@ -522,6 +525,9 @@ func (r *runner) finalize(rc *rec) string {
 			}
 		}
 		rc.out.Str = encode(st)
+		if !recognised {
+			rc.out.Str = "?unrecognised"
+		}
 	}
 	return ""
 }
@@ -647,9 +653,13 @@ func (p Prop) Run(t *testing.T, c *harness.Case, verbose bool) *harness.Result {
 		st := decode(s.(string))
 		mi := in.(modelInput)
 		if mi.Op.Kind == "StringN" {
-			// the text String() prints is not specified by the property: the operation takes part in the
-			// schedule (locks, lockset, deadlock), its output is not judged
-			return true, s
+			// The text String() prints is not specified. While it keeps the shape "name = value" per line
+			// it is read as a listing of the scope (names, integer values) and must be a state the scope
+			// was in; any other shape is not judged (the operation still takes part in the schedule).
+			if out.(Out).Str == "?unrecognised" {
+				return true, s
+			}
+			return stringNormalize(s.(string)) == out.(Out).Str, s
 		}
 		ns, want := apply(st, mi.Op, mi.Rooted)
 		if mi.Op.Kind == "Addr" && out.(Out).Err != "" && out.(Out).Err != "undef" {
